@@ -206,7 +206,9 @@ ITEMS = [
     dict(raw="impl<'i> vstd::std_specs::convert::FromSpecImpl<Handle<'i>> for Input<'i> {\n    open spec fn obeys_from_spec() -> bool { false }\n    open spec fn from_spec(h: Handle<'i>) -> Input<'i> { arbitrary() }\n}\nimpl<'i> From<Handle<'i>> for Input<'i> {"),
     dict(src=SRC, kind='fn', name='from', within_impl=r"\bimpl\s*<'i>\s+From\s*<Handle\s*<'i>>\s+for\s+Input\s*<'i>", contract=dict(ret='r', spec=INPUT_FROM_SPEC, prologue=BU,
                        # (T6') `a.chain(b)` -> stand-in `io_chain(a, b)`
-                       rewrites=[dict(find=r'(FusedReader::new\(\s*\w+\s*\))\s*\.\s*chain\(\s*(\w+)\s*\)', to=r'io_chain(\1, \2)', expand=True)])),
+                       rewrites=[dict(find=r'(FusedReader::new\(\s*\w+\s*\))\s*\.\s*chain\(\s*(\w+)\s*\)', to=r'io_chain(\1, \2)', expand=True)],
+                       # C03 / C02: the source may be handed on bare only when NOTHING was captured from it (else captured bytes are lost)
+                       inserts=[dict(before=r'Input::Reader\(\s*source\s*\)', text='proof { assert(cur_buf(&cursor).len() == 0); }')])),
     dict(raw='}'),
     # (T4') `impl TryFrom<Handle> for Cow<[u8]>`: a trait method cannot carry the `wf` precondition and Cow is a foreign type, so
     # `try_from` is placed at module level as a free function (its lifetime parameter, declared on the impl, is declared on the fn)
